@@ -27,6 +27,9 @@
                       exponent; what the triple denotes; utils_assemble of it = the utils.c result)
      WITHIN bits sn sd wn wd -> WITHIN 0|1                  (the property's predicate |s-w| <= 2^-bits |w|, decimal integers)
      STORE mpfbits bits wn wd -> STORE num den ok           (model store into an mpf of mpfbits bits, and the predicate on it)
+     SETTERS n op;op;...  ->  SET ABORT | SET OOB | SET <struct|unknown> S<spar> Q <coeffs> FP <z | e,n,d,n,d | q> ... GET <0|1>
+                     (run of SetterModel.v on m_new n; op = I,i,a,b | Q,i,rn,rd,in,id | S,i,xhex|~,xhex|~ | D,i,n,d,n,d | F,i,n,d,n,d,
+                      decimal integers; GET = whether get_q answers)
    texts are "x" ^ hex; integers in results are hexadecimal with sign. *)
 open Polfile
 
@@ -216,6 +219,28 @@ let () =
          let s = trunc_bits (pos_of_dec mb) w in
          print_endline ("STORE " ^ hex_of_z s.qnum ^ " " ^ hex_of_pos s.qden ^ " " ^
                         (if within_precb (pos_of_dec bits) s w then "1" else "0"))
+       | ["SETTERS"; n; ops] ->
+         let qq a b = { qnum = z_of_dec a; qden = pos_of_dec b } in
+         let parse_op o = match split ',' o with
+           | ["I"; i; a; b] -> OpInt (nat_of_string i, z_of_dec a, z_of_dec b)
+           | ["Q"; i; rn; rd; im; id] -> OpQ (nat_of_string i, (z_of_dec rn, z_of_dec rd), (z_of_dec im, z_of_dec id))
+           | ["S"; i; a; b] -> OpS (nat_of_string i, opt_text a, opt_text b)
+           | ["D"; i; a; b; c; d] -> OpD (nat_of_string i, qq a b, qq c d)
+           | ["F"; i; a; b; c; d] -> OpF (nat_of_string i, qq a b, qq c d)
+           | _ -> failwith ("bad op " ^ o) in
+         (match run (List.map parse_op (split ';' ops)) (m_new (nat_of_string n)) with
+          | SAbort -> print_endline "SET ABORT"
+          | SOutOfBounds -> print_endline "SET OOB"
+          | SOk m ->
+            let fp = function
+              | FZero -> "z"
+              | FExact (x, y) -> String.concat "," ["e"; hex_of_z x.qnum; hex_of_pos x.qden; hex_of_z y.qnum; hex_of_pos y.qden]
+              | FFromQ _ -> "q" in
+            print_endline (Printf.sprintf "SET %s S%s Q %s FP %s GET %d"
+              (match m.m_struct with None -> "unknown" | Some s -> struct_name s)
+              (String.concat "" (List.map (fun b -> if b then "1" else "0") m.m_spar))
+              (show_coeffs m.m_q) (String.concat " " (List.map fp m.m_fp))
+              (match get_q m O with Some _ -> 1 | None -> 0)))
        | ["TEXT"; x] ->
          let t = text_of_x x in
          print_endline ("PARSE " ^ show_result (parse t));
